@@ -42,7 +42,8 @@ def build_case(cid, rng, selector, unimock=False, force_async=False, no_send=Fal
     opts = []
     if selector != "default":
         opts.append("delegate_by = %s" % selector)
-    extra = rng.choice([[], [], ["?Send"] if False else [], ["mockall = false"], ["unimock = false"], ["debug = false"]])
+    extra = rng.choice([[], [], ["?Send"] if False else [], ["mockall = false"], ["unimock = false"], ["debug = false"],
+                        ["mockall"] if not unimock else [], ["unimock = true", "mock_api = TrMock"] if not unimock else []])   # (gated by cfg(test): inert here)
     opts += extra
     if no_send:
         opts.append("?Send")
